@@ -102,3 +102,37 @@ show("D25", "from_spec({'value.dtype.truthy': None})", lambda: ConditionLike.fro
 show("D26", "3-component part spec == keyword-built part", lambda: ContainerValue.from_spec(
     {"type": "map_value", "key.eq": "a", "value.gt": 1, "condition": {"value.lt": 5}})
     == MapValue(key="a", value=Value.gt(1), condition=Value.lt(5)))
+show("D27", "integer key below an untyped node in to_tree", lambda: Schema(
+    [Rule((), Value.truthy()), Rule((0,), Value.truthy())]).to_tree())
+show("D28", "from_spec({'value.equal_to': {1: 'a'}})", lambda: ConditionLike.from_spec({"value.equal_to": {1: "a"}}))
+
+
+def d29():
+    r1 = Rule.from_spec({"path": ["a"], "condition": {"value.equal_to": 1}, "cast": {}})
+    r2 = Rule.from_json_like(json.loads(json.dumps(r1.to_json_like())))
+    return (r1.cast, r2.cast, r1 == r2)
+
+
+show("D29", "rule with cast: {} after the JSON round trip (casts, ==)", d29)
+
+
+def d30():
+    import signal
+
+    def on_alarm(*a):
+        raise TimeoutError("add_schema did not return within 3 s")
+    signal.signal(signal.SIGALRM, on_alarm)
+    signal.alarm(3)
+    try:
+        S = Schema([Rule(("a",), Value.truthy())])
+        S.add_schema(S, DataPath("r"))
+        return [len(r.path) for r in S.rules]
+    finally:
+        signal.alarm(0)
+
+
+show("D30", "S.add_schema(S, DataPath('r'))", d30)
+show("D31", "from_spec({'value.truthy': [1]}) (an argument for a callable without parameters)",
+     lambda: ConditionLike.from_spec({"value.truthy": [1]}))
+show("D32", "Rule(('xs', ListValue()), Index.equal_to(0) & Value.equal_to(1)).test({'xs': [1, 2, 1]})", lambda: [
+    f.path for f in Rule(DataPath("xs", ListValue()), Index.equal_to(0) & Value.equal_to(1)).test({"xs": [1, 2, 1]}).failures])
